@@ -472,7 +472,7 @@ func c04Run(b core.Batch, r *core.Recorder) {
 func c04Plan(tier string, seed int64) []core.Batch {
 	nf, ne := 30000, 420
 	if tier == "thorough" {
-		nf, ne = 500000, 10000
+		nf, ne = 2000000, 40000
 	}
 	bs := []core.Batch{{Name: "func", TimeoutS: 1200, Args: map[string]any{"mode": "func", "n": nf}}}
 	for _, be := range []string{"memory", "file"} {
